@@ -210,16 +210,20 @@ Qed.
 (* ------------------------------------------------------------------------------------- *)
 (** * the attributes *)
 
-Theorem reachfs_block c nh fs b : forallb flow_ok fs = true ->
-  reachfs_construct nh fs = Ok (Some b) -> attr_block c c_ATTR_MpReachNLRI_ID b.
+(** no next hop, an IPv4 or an IPv6 one: 0, 4 or 16 octets *)
+Theorem reachfs_block_x c nh fs b : forallb flow_ok fs = true ->
+  reachfs_construct_x nh fs = Ok (Some b) -> attr_block c c_ATTR_MpReachNLRI_ID b.
 Proof.
-  intros G. unfold reachfs_construct. intros H. apply mbind_ok in H as (nlri & Hn & H).
+  intros G. unfold reachfs_construct_x. intros H. apply mbind_ok in H as (nlri & Hn & H).
   destruct (fs_construct_valid fs nlri Hn G false) as [V W].
   destruct nlri as [|x nl]; [discriminate|].
   apply mbind_ok in H as (b' & H & Hb). apply mOk_inj in Hb. injection Hb as <-.
-  eapply reach_attr_block; [exact H | reflexivity | reflexivity | destruct nh; [apply wf_be | constructor] | exact W | | exact V].
-  destruct nh; [rewrite len_be|]; reflexivity.
+  eapply reach_attr_block; [exact H | reflexivity | reflexivity | destruct nh as [[[] a]|]; [apply wf_be | apply wf_be | constructor] | exact W | | exact V].
+  destruct nh as [[[] a]|]; [rewrite len_be | rewrite len_be |]; reflexivity.
 Qed.
+Theorem reachfs_block c nh fs b : forallb flow_ok fs = true ->
+  reachfs_construct nh fs = Ok (Some b) -> attr_block c c_ATTR_MpReachNLRI_ID b.
+Proof. apply reachfs_block_x. Qed.
 
 Theorem unreachfs_block c fs b : forallb flow_ok fs = true ->
   unreachfs_construct fs = Ok (Some b) -> attr_block c c_ATTR_MpUnReachNLRI_ID b.
@@ -271,6 +275,6 @@ Proof. vm_compute. repeat split. Qed.
 
 (** the statements of props/C08.v *)
 Lemma mp_flow4_valid c fs : forallb flow_ok fs = true ->
-  (forall nh b, reachfs_construct nh fs = Ok (Some b) -> attr_block c c_ATTR_MpReachNLRI_ID b) /\
+  (forall nh b, reachfs_construct_x nh fs = Ok (Some b) -> attr_block c c_ATTR_MpReachNLRI_ID b) /\
   (forall b, unreachfs_construct fs = Ok (Some b) -> attr_block c c_ATTR_MpUnReachNLRI_ID b).
-Proof. intros H. split; intros; [eapply reachfs_block | eapply unreachfs_block]; eassumption. Qed.
+Proof. intros H. split; intros; [eapply reachfs_block_x | eapply unreachfs_block]; eassumption. Qed.
